@@ -225,6 +225,8 @@ def run(ctx: Ctx) -> int:
                 b = sensors.Button(2, on_click=lambda: clicks.append(1))
                 rets = []
                 for s in sig:
+                    for g in range(rng.randint(0, 2)):
+                        b.set_pressed(not s)      # glitches between two samples must not matter
                     b.set_pressed(s)
                     rets.append(b.is_pressed())
             edges = sum(1 for i, s in enumerate(sig) if s and not (sig[i - 1] if i else False))
